@@ -52,6 +52,9 @@ def cases(tier, seed):
                         if tier == "quick" and alphas != [0.9] and (not hard) and ca != ("none", "none"):
                             continue
                         out.append({"kind": "client", "levels": lv, "alphas": alphas, "hard": hard, "corr": corr, "calls": list(ca), "seed": seed})
+                        if alphas == [0.9] and ca in (("none", "none"), ("left", "none")):
+                            # a third contest that exists only among units outside the model (its whole state is blocklisted)
+                            out.append({"kind": "client", "levels": lv, "alphas": alphas, "hard": hard, "corr": corr, "calls": list(ca), "seed": seed, "passthrough_state": True})
     for hard in (True, False):
         for corr in (True, False):
             out.append({"kind": "bfs", "depth": 2 if tier == "quick" else 3, "hard": hard, "corr": corr, "seed": seed})
@@ -78,11 +81,16 @@ def describe(case):
     return case
 
 
-def _election(seed, unexpected=True):
+def _election(seed, unexpected=True, passthrough_state=False):
     units = E.background(seed, "G", 20, "AABB", partial=5)
     units.append(E.make_probe(seed, 0, "nonrep_partial", "pop0", weights="twoparty"))
     if unexpected:
         units.append(E.make_probe(seed, 1, "unexpected", "newcounty", weights="twoparty"))
+    if passthrough_state:
+        for k in range(3):
+            u = E.make_probe(seed, 10 + k, "reporting", "pop0", weights="twoparty")
+            u.update(id=f"CCc0_q{k}", postal="CC", county="CCc0", status="state_blocklisted")
+            units.append(u)
     return units
 
 
@@ -98,28 +106,30 @@ def _lists(calls):
     return lhs, rhs, stp
 
 
-def _cfg(levels, alphas, hard, corr, calls):
+def _cfg(levels, alphas, hard, corr, calls, states=("AA", "BB")):
     lhs, rhs, stp = _lists(calls)
     return E.make_cfg(
+        states=list(states),
         pi_method="bootstrap", estimands=["margin"], features=["baseline_normalized_margin"], alphas=alphas, aggregates=levels + ["unit"],
         model_parameters={"B": 10, "lambda_": 1.0, "agg_model_hard_threshold": hard, "national_summary_correlation": corr}, lhs=lhs, rhs=rhs, stop=stp,
     )
 
 
-def _summaries(client, viol, ctx, cov):
+def _summaries(client, viol, ctx, cov, third=False):
     """summary with weights None / explicit / wrong size; returns the two tables (or error strings)."""
     from elexmodel.models.BootstrapElectionModel import BootstrapElectionModelException
 
     out = []
-    for name, d in (("none", None), ("explicit", {"AA": 3, "BB": 5})):
+    explicit = {"AA": 3, "BB": 5, "CC": 7} if third else {"AA": 3, "BB": 5}
+    for name, d in (("none", None), ("explicit", explicit)):
         try:
             tab = client.get_national_summary_votes_estimates(d, 7, [0.7, 0.9])
             out.append(E.table_to_obj(tab)["rows"])
         except Exception as e:
             out.append(f"raised {type(e).__name__}: {str(e)[:120]}")
     try:
-        client.get_national_summary_votes_estimates({"AA": 1, "BB": 1, "CC": 1}, 0, [0.9])
-        viol("wrong-size-weights-accepted", f"{ctx}: a 3-entry weight dictionary was accepted for 2 contests")
+        client.get_national_summary_votes_estimates({"AA": 1, "BB": 1, "CC": 1, "DD": 1} if third else {"AA": 1, "BB": 1, "CC": 1}, 0, [0.9])
+        viol("wrong-size-weights-accepted", f"{ctx}: a weight dictionary with one entry too many was accepted")
     except BootstrapElectionModelException:
         cov["wrong_size_rejected"] += 1
     except Exception as e:
@@ -128,19 +138,26 @@ def _summaries(client, viol, ctx, cov):
 
 
 def _client_case(case, cov, viol):
-    units = _election(case["seed"])
-    ref_cfg = _cfg(["postal_code"], case["alphas"], case["hard"], case["corr"], case["calls"])
-    cfg = _cfg(case["levels"], case["alphas"], case["hard"], case["corr"], case["calls"])
-    ctx = f"levels={case['levels']} alphas={case['alphas']} hard={case['hard']} corr={case['corr']} calls={case['calls']}"
+    third = bool(case.get("passthrough_state"))
+    units = _election(case["seed"], passthrough_state=third)
+    states = ("AA", "BB", "CC") if third else ("AA", "BB")
+    ref_cfg = _cfg(["postal_code"], case["alphas"], case["hard"], case["corr"], case["calls"], states)
+    cfg = _cfg(case["levels"], case["alphas"], case["hard"], case["corr"], case["calls"], states)
+    ctx = f"levels={case['levels']} alphas={case['alphas']} hard={case['hard']} corr={case['corr']} calls={case['calls']} passthrough_only_contest={third}"
     a = E.run_estimates(units, ref_cfg, keep_client=True)
     if "error" in a:
         raise RuntimeError(a["error"])
-    ref = _summaries(a["client"], viol, ctx + " [reference history]", Counter())
+    ref = _summaries(a["client"], viol, ctx + " [reference history]", Counter(), third)
     b = E.run_estimates(units, cfg, keep_client=True)
     if "error" in b:
         viol("run-raised", f"{ctx}: {b['error']}")
         return 2, True
-    got = _summaries(b["client"], viol, ctx, cov)
+    got = _summaries(b["client"], viol, ctx, cov, third)
+    if third:
+        cov["passthrough_only_contest_runs"] += 1
+        for name, r in zip(("weights=None", "explicit weights"), ref):
+            if isinstance(r, str):
+                viol("summary-raised-with-passthrough-only-contest", f"{ctx} {name}: {r}")
     for name, r, g in zip(("weights=None", "explicit weights"), ref, got):
         if isinstance(g, str):
             viol("summary-raised-after-finer-aggregates", f"{ctx} {name}: {g} (after the contest level alone: {r})")
@@ -238,6 +255,7 @@ def _seam_case(case, cov, viol):
 
     n = case["ncont"]
     m = BootstrapElectionModel({"features": ["baseline_normalized_margin"], "B": 2, "agg_model_hard_threshold": case["hard"], "national_summary_correlation": case["corr"]})
+    m.n_contests = n  # set by the bootstrap on a real run
     base = case["base"]
     per = [(d1, d2, p, s) for d1 in range(4) for d2 in range(4) for p in range(4) for s in range(6) if _consistent(PM[p], STATUS[s])]
     first = tuple(case["first"])
@@ -315,4 +333,4 @@ def evaluate(case):
     return dict({"violations": V, "cov": dict(cov), "outcome": sha([v["sig"] for v in V] + [case["kind"]]), "nontrivial": nontrivial, "transitions": max(1, runs)}, **extra)
 
 
-REQUIRED_COUNTERS = {"client_histories": 100, "bfs_states": 4, "seam_executions": 50000, "wrong_size_rejected": 100, "called_contest_draw_groups": 1000}
+REQUIRED_COUNTERS = {"client_histories": 100, "bfs_states": 4, "seam_executions": 50000, "wrong_size_rejected": 100, "called_contest_draw_groups": 1000, "passthrough_only_contest_runs": 20}
